@@ -86,6 +86,16 @@ class Conc:
             return n["v"]
         if k == "bool":
             return int(n["v"])
+        if "cv" in n:
+            return n["cv"]          # folded by the compiler front end: a constant whatever the environment
+        if k == "subscript":
+            o = self.eval(n.get("base"), env, depth)
+            i = self.eval(n.get("idx"), env, depth)
+            if isinstance(o, Table) and o.items is not None and isinstance(i, int) and 0 <= i < len(o.items):
+                return o.items[i]
+            if isinstance(o, str) and isinstance(i, int) and 0 <= i < len(o):
+                return ord(o[i])
+            raise Unknown("subscript outside the constant table")
         s = const_str(n)
         if s is not None:
             return s
